@@ -1,4 +1,5 @@
 import Moyo.Proofs.MagStdReynolds
+import Moyo.Proofs.MagStdAnti
 import Moyo.Proofs.MagFamily
 import Moyo.Props.C06Stages
 /-
@@ -180,20 +181,119 @@ example :
     (referenceOpsPerms [⟨M3.one, Q3.zero, false⟩, ⟨M3.one.neg, Q3.zero, true⟩] [[0, 1], [1, 0]] 3 (1 / 100)).2 = [[0, 1], [1, 0]] := by
   decide +kernel
 
-/- Full statement of position invariance (NOT proved): the positions of `std_mag_cell` are carried onto each other, modulo
-lattice translations, by EVERY magnetic operation transformed into the standardized cell.
-Proved (`C06.reynolds_positions`, `C06.conv_cell_invariant` applied to the reference cell, whose hypotheses the driver
-evaluates on every `s6m` case: `hyp` segment): exact invariance under the tabulated operations of the **reference** space
-group — the family group for types I–III (then every magnetic operation is covered, time reversal does not act on
-positions) and the unprimed subgroup XSG for type IV.  Missing for type IV: the anti-translation coset.  The
-implementation does not symmetrise over it (`reference_symmetry_operations_and_permutations` drops the primed operations),
-so exact invariance under anti-translations holds only as far as the input positions already have it. -/
+/-- **Positions of the standardized primitive magnetic cell are exactly invariant under the whole magnetic group
+(`mag_positions_invariant`, full statement; types I–III are the case without anti-translation, see below).**
+Model of the position pipeline of `StandardizedMagneticCell::new` for a type-IV group (after the repair 1c2f2a9): the
+positions `pos` of the primitive magnetic cell are averaged over the anti-translation `(1, t)'` with site permutation `p`
+(`antiAverageWith`), carried into the primitive standardized setting by the unimodular `u = (P, p₀)`
+(`x ↦ P⁻¹ (x − p₀)`), and Reynolds-averaged over the tabulated operations `ops` of the reference group (= XSG) with the
+re-ordered permutations `perms` (`symmetrize_positions`).  Hypotheses, all decidable and evaluated by the driver on every
+type-IV case (`hyp`, `ahyp` segments of the `s6m` answer):
+* `antiHyp t p pos`: `p` is an involutive bijection of the sites and the two wrapped displacements of every pair `i, p(i)`
+  add up to less than `1/2` per component;
+* `compatAction ops perms n`, `smallDisp ops perms ·`: the hypotheses of `C06.reynolds_positions` for the reference group;
+* `translationCommutes ops perms s p n` for `s = P⁻¹ · round(2t)/2`, the ideal anti-translation in the standardized
+  setting: `(R − 1) s ∈ ℤ³` and `π_R ∘ p = p ∘ π_R` for every operation.
+Conclusion: the resulting positions `x̄` satisfy, **exactly**,
+* `R x̄_i + τ = x̄_{π(i)} + n` for every tabulated operation `(R, τ)` of the reference group (`exactlyInvariant`), and
+* `x̄_{p(i)} = x̄_i + s + n` for the anti-translation (`translationInvariant`),
+hence (third clause) `R x̄_i + τ + s = x̄_{p(π(i))} + n` for every element `(R, τ + s)'` of the anti-translation coset:
+every magnetic operation of the group generated by the reference operations and the ideal anti-translation maps the
+positions onto themselves modulo lattice translations. -/
+theorem mag_positions_invariant (t : Q3) (p : List Nat) (pos : List Q3) (u : UTrans) (ops : List OpQ) (perms : List (List Nat))
+    (ha : antiHyp t p pos = true)
+    (hc : compatAction ops perms pos.length = true)
+    (hs : smallDisp ops perms ((antiAverageWith t p pos).map u.transformPos) = true)
+    (hq : translationCommutes ops perms (u.linv.applyQ (idealHalf t)) p pos.length = true) :
+    let fin := symmetrizePositions ops perms ((antiAverageWith t p pos).map u.transformPos)
+    let s := u.linv.applyQ (idealHalf t)
+    exactlyInvariant ops perms fin = true ∧ translationInvariant s p fin = true ∧
+    ∀ k, k < ops.length → ∀ i, i < pos.length → ∃ n : Z3,
+      (((opAt ops k).rot.applyQ (fin.getD i Q3.zero)).add (opAt ops k).trans).add s =
+        (fin.getD (p.getD ((permAt perms k).getD i 0) 0) Q3.zero).add (Z3.toQ3 n) := by
+  intro fin s
+  have hlen : ((antiAverageWith t p pos).map u.transformPos).length = pos.length := by
+    simp [antiAverageWith_length]
+  have hc' : compatAction ops perms ((antiAverageWith t p pos).map u.transformPos).length = true := by rw [hlen]; exact hc
+  have hq' : translationCommutes ops perms s p ((antiAverageWith t p pos).map u.transformPos).length = true := by
+    rw [hlen]; exact hq
+  have hp : isPerm (antiAverageWith t p pos).length p = true := by
+    rw [antiAverageWith_length]; exact (antiHyp_spec ha).1
+  have h1 := anti_average_invariant t p pos ha
+  have h2 := transformPos_invariant u (idealHalf t) p _ hp h1
+  have h3 : translationInvariant s p fin = true := reynolds_commuting_translation hc' hs hq' h2
+  have h4 : exactlyInvariant ops perms fin = true := C06.reynolds_exactly_invariant ops perms _ hc' hs
+  refine ⟨h4, h3, ?_⟩
+  intro k hk i hi
+  have hfl : fin.length = pos.length := by simp [fin, symmetrizePositions, antiAverageWith_length]
+  obtain ⟨hlen2, _, hperm, _, _, _⟩ := compat_spec hc
+  have hj : (permAt perms k).getD i 0 < pos.length := perm_getD_lt (hperm k hk) hi
+  -- clause 1 at (k, i)
+  unfold exactlyInvariant at h4
+  rw [List.all_eq_true] at h4
+  have hk' : k < (ops.zip perms).length := by simp only [List.length_zip]; omega
+  have e1 := h4 (ops.zip perms)[k] (List.getElem_mem hk')
+  rw [List.all_eq_true] at e1
+  have e1' := e1 i (List.mem_range.mpr (by rw [hfl]; exact hi))
+  rw [isInt3_iff] at e1'
+  obtain ⟨z1, hz1⟩ := e1'
+  simp only [List.getElem_zip] at hz1
+  -- clause 2 at π_k i
+  obtain ⟨z2, hz2⟩ := (translationInvariant_iff.mp h3) ((permAt perms k).getD i 0) (by rw [hfl]; exact hj)
+  refine ⟨z1.sub z2, ?_⟩
+  unfold permAt at hz2
+  unfold opAt permAt
+  rw [getD_of_lt (by omega : k < perms.length)] at hz2
+  rw [getD_of_lt hk, getD_of_lt (by omega : k < perms.length)]
+  generalize (ops[k].rot.applyQ (fin.getD i Q3.zero)).add ops[k].trans = a at hz1 ⊢
+  generalize fin.getD (perms[k].getD i 0) Q3.zero = b at hz1 hz2 ⊢
+  generalize fin.getD (p.getD (perms[k].getD i 0) 0) Q3.zero = c at hz2 ⊢
+  obtain ⟨a1, a2, a3⟩ := a
+  obtain ⟨b1, b2, b3⟩ := b
+  obtain ⟨c1, c2, c3⟩ := c
+  obtain ⟨s1, s2, s3⟩ := s
+  obtain ⟨n1, n2, n3⟩ := z1
+  obtain ⟨m1, m2, m3⟩ := z2
+  simp only [Q3.add, Q3.sub, Z3.toQ3, Z3.sub, Q3.mk.injEq] at hz1 hz2 ⊢
+  obtain ⟨x1, x2, x3⟩ := hz1
+  obtain ⟨y1, y2, y3⟩ := hz2
+  refine ⟨?_, ?_, ?_⟩ <;> push_cast <;> linarith
 
-/-- **Position invariance under the reference group (partial, see above).**  For the reference operations `ops` (tabulated
-primitive operations of the reference Hall number) with the re-ordered permutations, under the two decidable hypotheses of
-`C06.reynolds_positions`, the positions of the primitive standardized magnetic cell — the output of `symmetrize_positions`
-inside the reference `StandardizedCell::new` — are exactly invariant. -/
-theorem mag_positions_invariant_partial (ops : List OpQ) (perms : List (List Nat)) (pos : List Q3)
+/-- Non-vacuity with a type-IV instance (UNI 102 `P 2 2 1a'`, eight atoms, three coordinates off by 1e-3 / 5e-4): the model of
+`StandardizedMagneticCell::new` succeeds with construct type 4; the input positions are **not** invariant under the
+anti-translation `a/2`; all hypotheses of `mag_positions_invariant` hold (as evaluated by the driver) and the positions of
+the standardized primitive cell are exactly invariant under the reference group and under the anti-translation; the
+moments are exactly invariant as well. -/
+example :
+    translationInvariant (idealHalf ⟨1 / 2, 0, 0⟩) [4, 5, 6, 7, 0, 1, 2, 3] S6m.exampleInput4.pos = false ∧
+    (match S6m.run S6m.exampleInput4 with
+      | .ok r => r.ctype == 4 && r.hypAnti && r.antiInvariant && r.ref.hypCompat && r.ref.hypSmall && r.ref.exactInvariant &&
+          r.hypMom && r.momInvariant && r.stdMomInvariant
+      | _ => false) = true := by
+  decide +kernel
+
+/-- The hypotheses of `mag_positions_invariant` spelled out on the same instance (anti-translation `(1, a/2)'` with the site
+permutation `i ↦ i ± 4`, identity setting, the four tabulated operations of `P 2 2`). -/
+example :
+    let inp := S6m.exampleInput4
+    let t : Q3 := ⟨1 / 2, 0, 0⟩
+    let p := [4, 5, 6, 7, 0, 1, 2, 3]
+    let u : UTrans := ⟨M3.one, Q3.zero⟩
+    let ops : List OpQ := [⟨M3.one, Q3.zero⟩, ⟨⟨-1, 0, 0, 0, -1, 0, 0, 0, 1⟩, Q3.zero⟩, ⟨⟨1, 0, 0, 0, -1, 0, 0, 0, -1⟩, Q3.zero⟩,
+      ⟨⟨-1, 0, 0, 0, 1, 0, 0, 0, -1⟩, Q3.zero⟩]
+    let perms := inp.perms.take 4
+    (findAnti inp.mops inp.perms).map (fun r => (r.1.rot, r.1.trans, r.1.tr, r.2)) = some (M3.one, t, true, p) ∧
+    antiHyp t p inp.pos = true ∧
+    compatAction ops perms inp.pos.length = true ∧
+    smallDisp ops perms ((antiAverageWith t p inp.pos).map u.transformPos) = true ∧
+    translationCommutes ops perms (u.linv.applyQ (idealHalf t)) p inp.pos.length = true := by
+  decide +kernel
+
+/-- **Types I–III** (no anti-translation; the reference group is the family group, which contains the space-group part of
+every magnetic operation — `reference_ops_sound` — and time reversal does not act on positions): exact invariance under the
+tabulated operations of the reference group is `C06.reynolds_exactly_invariant`, restated here for the positions of the
+magnetic standardization. -/
+theorem mag_positions_invariant_reference (ops : List OpQ) (perms : List (List Nat)) (pos : List Q3)
     (hc : compatAction ops perms pos.length = true) (hs : smallDisp ops perms pos = true) :
     exactlyInvariant ops perms (symmetrizePositions ops perms pos) = true :=
   C06.reynolds_exactly_invariant ops perms pos hc hs
@@ -204,5 +304,10 @@ example :
     let pos : List Q3 := [⟨1 / 10, 1 / 5, 3 / 10⟩, ⟨-1 / 10, -1 / 5, 301 / 1000⟩]
     compatAction ops perms 2 = true ∧ smallDisp ops perms pos = true ∧ exactlyInvariant ops perms pos = false := by
   decide +kernel
+
+/- What `mag_positions_invariant` does not say: the anti-translation under which the positions are exactly invariant is the
+*ideal* one, `round(2t)/2` — the translation `t` found by the symmetry search on a slightly distorted structure differs
+from it by the distortion.  The reported magnetic operations carry the found translations; C13 judges them with its
+numerical tolerance (the verified oracle), the exact statement is about the ideal group. -/
 
 end Moyo.C13Stages
